@@ -264,6 +264,10 @@ func TestC11(t *testing.T) {
 			l4 := append(append([]byte{}, long[:len(long)-1]...), long[len(long)-1]^1)
 			duids = [][]byte{long, l2, l3, l4, long[:16], {0, 3, 0, 0, 1}, {0xff}, randBytes(r, 1+r.Intn(40))}
 		}
+		if i%3 == 2 { // identities that spell an address of the network in four octets, or its text form
+			a, b := lo+1+uint32(r.Intn(int(minU32(size-1, 6)))), lo+1+uint32(r.Intn(int(minU32(size-1, 6))))
+			duids = [][]byte{u32b(a), u32b(b), []byte(ip4(a).String()), {0, 3, 0, 0, 1}, {}}
+		}
 		n := 6 + r.Intn(35)
 		var ops []dbOp
 		for j := 0; j < n; j++ {
